@@ -33,6 +33,8 @@ def plan(tier, seed):
         specs.append({"stratum": "basic-mixed-keys", "n": 900 if q else 4000, "k": k, "clean": True})
     for k in range(2 if q else 8):
         specs.append({"stratum": "list-swap", "n": 700 if q else 6000, "k": k, "clean": True})
+    for k in range(2 if q else 8):
+        specs.append({"stratum": "xml-attribute-permutations", "n": 90 if q else 2000, "k": k, "clean": True})
     if not q:
         for k in range(8):
             specs.append({"stratum": "all-24-permutations", "n": 250, "k": k, "clean": True})
@@ -84,6 +86,20 @@ def gen_cases(spec, ctx):
             for ds in gen.DS:
                 yield {"family": "json", "a": a, "b": b, "ds": ds, "le": r.choice(gen.LE), "seed": r.randrange(1 << 30),
                        "all24": st == "all-24-permutations"}
+        return
+    if st == "xml-attribute-permutations":
+        # XML attributes are mappings too: their order in the file must not matter
+        def fatten(x):
+            t, at, tx, kids = x
+            at = dict(at)
+            for _ in range(r.randint(1, 3)):
+                at[families._xs(r)] = families._xs(r, 0)
+            return [t, at, tx, [fatten(k) for k in kids]]
+        for _ in range(spec["n"]):
+            a = fatten(families.gen_xml(r, 1))
+            b = families.mut_xml(r, a) if r.random() < 0.85 else fatten(families.gen_xml(r, 1))
+            for ds in gen.DS:
+                yield {"family": "xml", "a": a, "b": b, "ds": ds, "le": "on", "seed": r.randrange(1 << 30)}
         return
     if st == "basic-mixed-keys":
         for _ in range(spec["n"]):
